@@ -1,12 +1,12 @@
 /-
-  C12: the hand-written model rules equal the expressions the translators read off the current source
+  C12: `do_antitarget`'s minimum size -- the hand-written model equals the expression the translators read off the current source
   (Generated/ExprsBins.lean, regenerated from /repo on every run by harness/extractors/exprs_bins.py).
   Each proof tries `rfl` first and falls back to case analysis + `simp`, so that equivalent spellings of the
-  source (a flipped comparison, a negated test with swapped branches, a renamed local) keep it green.
+  source (a flipped comparison, a negated test with swapped branches, renamed locals) keep it green.
+  One lemma file and one Props module per source function group: an edit breaks exactly the obligations about it.
 -/
 import CnvVerif.Generated.ExprsBins
 import CnvVerif.Model.Bins
-import CnvVerif.Lemmas.Bins3
 import Mathlib.Data.Rat.Floor
 import Mathlib.Tactic.Linarith
 import Mathlib.Tactic.SplitIfs
@@ -60,44 +60,5 @@ theorem effectiveMin_absent_is_source (avg : Rat) :
   first
   | exact defaultMinSize_cast avg
   | (rw [defaultMinSize_cast avg]; split_ifs <;> first | rfl | ring | linarith)
-
-/-- the contigs `drop_noncanonical_contigs` skips -/
-theorem skipOf_is_source (acc tg : Table) :
-    skipOf acc tg = src_chroms_to_skip isCanonicalName (chromsInOrder acc) (chromsInOrder tg) := by
-  unfold skipOf src_chroms_to_skip
-  first
-  | rfl
-  | (simp only [List.filter_filter, gt_iff_lt, ge_iff_le, Bool.not_not, Bool.and_comm, Nat.lt_iff_add_one_le,
-       Bool.not_eq_true', Bool.not_eq_false', decide_not, Nat.not_le, Nat.not_lt]
-     cases h : (chromsInOrder tg).any isCanonicalName <;> simp [h, List.filter_filter, Bool.and_comm, Nat.lt_iff_add_one_le])
-
-/-- when `compare_chrom_names` refuses -/
-theorem chromNamesClash_is_source (a b : Table) :
-    chromNamesClash a b = src_chrom_names_clash (chromsInOrder a) (chromsInOrder b) := by
-  unfold chromNamesClash src_chrom_names_clash
-  first
-  | rfl
-  | (cases h : chromsInOrder a <;> simp [Bool.and_comm])
-
-/-- `filter_names` with its default `exclude` -/
-theorem length_pos_decide {α} (l : List α) : decide (l.length > 0) = !l.isEmpty := by
-  cases l <;> simp
-
-theorem length_ge_two_decide {α} (l : List α) : decide (l.length ≥ 2) = decide (l.length > 1) := by
-  apply decide_eq_decide.mpr
-  omega
-
-theorem filterNames_is_source (names : List String) :
-    filterNames names = src_filter_names names SHORTEN_EXCLUDE := by
-  unfold filterNames src_filter_names
-  first
-  | rfl
-  | (have hp : ∀ n : String, (!(SHORTEN_EXCLUDE.any (fun ex => n.startsWith ex))) =
-         SHORTEN_EXCLUDE.all (fun ex => !(n.startsWith ex)) := fun n => List.not_any_eq_all_not
-     simp only [hp, length_pos_decide, length_ge_two_decide, gt_iff_lt, decide_eq_true_eq]
-     generalize names.filter (fun n => SHORTEN_EXCLUDE.all (fun ex => !(n.startsWith ex))) = ok
-     by_cases h1 : 1 < names.length <;> cases h2 : ok.isEmpty <;>
-       simp only [h1, h2, if_true, if_false, Bool.not_true, Bool.not_false, Bool.false_eq_true,
-         decide_true, decide_false])
 
 end CnvVerif.Src
